@@ -30,6 +30,29 @@ PROPS = {
             {"run": "^TestC02$", "quick": 6000, "thorough": 40000},
         ],
     },
+    "C15": {
+        "level": "exploration",
+        "assumptions": [
+            "spec.ModelSchema is an independent statement of the documented mapping; for kinds the documentation does not mention (Go arrays, int8, unsigned, non-string map keys) only 'error or usable schema' is required",
+            "named-type behaviour (names, reuse, recursion, embedding, unexported fields, package path) is sampled by the committed catalogue, not generated",
+        ],
+        "units": [
+            regress("C15"),
+            {"run": "^TestC15Recursive$", "quick": 1, "thorough": 1, "single": True, "rapid": False},
+            {"run": "^TestC15$", "quick": 10000, "thorough": 60000},
+        ],
+    },
+    "C14": {
+        "level": "exploration",
+        "assumptions": [
+            "ref.Render / ref.ParseSchema (encoding/json based) define what the document means; each case first checks that they agree with each other",
+            "left out: the empty union [], non-integer size literals, an object whose \"type\" is itself an object, duplicate object keys",
+        ],
+        "units": [
+            regress("C14"),
+            {"run": "^TestC14$", "quick": 20000, "thorough": 150000},
+        ],
+    },
     "C17": {
         "level": "exploration",
         "exhaustive_quick": False,
